@@ -94,7 +94,8 @@ def run(ctx):
         wide_doc = [[["w"] * 1500 + ["end"], [""] * 1100 + ["z"], ["a"] + ["b"] * 1025]]
         cases.append(({n_: (n_ == "colRuns") for n_ in FEATURES}, wide_doc, 1, "utf-8"))
         ws_doc = [[["a  b", "t\tab", "l1\nl2"], ["x", "y", "z"]]]
-        for combo in ({"whitespace"}, {"paragraphs"}, {"whitespace", "paragraphs"}):
+        for combo in ({"whitespace"}, {"paragraphs"}, {"whitespace", "paragraphs"}, {"spans", "whitespace"}, {"spans", "paragraphs"},
+                      {"spans", "whitespace", "paragraphs"}, {"spans", "whitespace", "paragraphs", "colRuns"}):
             cases.append(({n_: (n_ in combo) for n_ in FEATURES}, [[["l1\nl2", "p"]]] if combo == {"paragraphs"} else ws_doc, 1, "utf-8"))
         lines_ = [line("ods", "".join("1" if f[n_] else "0" for n_ in FEATURES), str(sheet), "|".join(rows_str(rows) for rows in doc)) for f, doc, sheet, charset in cases]
         outs = core.run_driver(lines_)
@@ -241,13 +242,16 @@ def run(ctx):
                     z.writestr("mimetype", "application/vnd.oasis.opendocument.spreadsheet")
                     if data is not None:
                         z.writestr("content.xml", data)
-            for mode in ("raise", "yield", "continue"):
+            # (also under a CID whose end-of-data check fails on what was read before the fault: the data-format error must not get lost)
+            cid_end = interface.Cid()
+            cid_end.read("c15e", [["D", "Format", "ODS"], ["D", "Sheet", "2"], ["F", "a"], ["F", "b", "", "X"], ["C", "many", "DistinctCount", "a > 99"]])
+            for mode, cid_used in [(m_, c_) for c_ in (cid, cid_end) for m_ in ("raise", "yield", "continue")]:
                 try:
-                    items = list(validio.rows(cid, pf, on_error=mode))
+                    items = list(validio.rows(cid_used, pf, on_error=mode))
                     got_m = "ok:%d items%s" % (len(items), ", an error among them" if any(isinstance(i_, Exception) for i_ in items) else "")
                 except Exception as error:  # noqa
                     got_m = core.classify_exception(error)
-                ctx.count(key=("fault-mode", name, mode), branch="fault-mode:" + got_m.split(":")[0])
+                ctx.count(key=("fault-mode", name, mode, cid_used is cid_end), branch="fault-mode:" + got_m.split(":")[0])
                 if got_m != "data:Format" and not (name.startswith("declared-encoding=") and got_m.startswith("ok:") and "error" not in got_m):
                     ctx.violation("C15:fault-through-reader:%s:%s" % (mode, got_m.split(" ")[0].split(":")[0]), "%s read with on_error=%s: %s instead of a data-format error" % (name, mode, got_m),
                                   {"fault": name, "mode": mode, "got": got_m})
